@@ -59,7 +59,10 @@ func runC09(p *Prog, r *Report) {
 	}
 	extractorLoopRule(p, r, e, "D3-surfaced")
 	c09Fatal(p, r, e)
+	loopLeftOnlyWithError(p, r, "D1-fatal-only-on-request", e.walkIndividual, "walkContext", "pathsToExtract", "walkIndividualPaths can return from inside its loop over the requested paths with a value that may be nil (the callback's verdict on a failed stat, say): when it is nil, every requested path after this one is silently never walked and the scan still reports success")
 	c09SecondCall(p, r, e)
+	r.Rule("D7-walk", "walker: callback first, recurse into every entry, exits only EOF/error/SkipDir, a failed read ends the listing (shared with C01)")
+	c01Walker(p, r, e)
 	c09Surfaced(p, r, e)
 	c09Overall(p, r)
 	c09Pop(p, r, e)
